@@ -72,6 +72,16 @@ func (e *Env) writeOutputs(proc, key string, outs map[string]string, ins map[str
 			continue
 		}
 		half := len(data) / 2
+		if ps := e.Spec.proc(proc); ps != nil && ps.AppendOut {
+			// echo first-half >> out; echo second-half >> out
+			for _, part := range [][]byte{data[:half], data[half:]} {
+				cur, _ := os.ReadFile(outs[port])
+				if err := vs.FSWriteFile(outs[port], append(cur, part...), 0644); err != nil {
+					return err
+				}
+			}
+			continue
+		}
 		if err := vs.FSWriteFile(outs[port], data[:half], 0644); err != nil {
 			return err
 		}
